@@ -101,3 +101,231 @@ def rule_pointer_export(rep, fb, floor=6, name="NUMPY.ptr-byteoffset:binding"):
         r.check(bool(offs), key, "%s:%d" % (f["file"], raws[0][-1] if isinstance(raws[0][-1], int) else f["line"]),
                 "%s exports %s.ptr().get() without %s.offset()/byteoffset(): a sliced array is exported from the start of its buffer" % (f["qual"], str(owner)[:20], str(owner)[:20]), detail="offset accounted for")
     return r.done()
+
+
+def _norm(s):
+    return re.sub(r"[^a-z0-9]", "", str(s).lower())
+
+
+def rule_pickle_state(rep, fb, floor=60, name="PAIR.pickle-state"):
+    r = rep.rule(name, "for every py::pickle(getstate, setstate) of the binding layer: element i of the tuple that getstate returns is an accessor of the object (self.has_identities(), self.parameters(), ...), and setstate passes state[i] "
+                 "to the constructor parameter of the same name; every element of the state is consumed - swapped positions or a dropped element survive type checking whenever the neighbours have the same type "
+                 "(two bools, two int64s, two strings) and change the object on a pickle round trip", floor=floor)
+    classes = fb.classes()
+    npick = 0
+    for f in fb.binding_funcs():
+        for pc in find_all(f["body"], lambda n: n[0] == "call" and n[1][0] == "fn" and str(n[1][1]).split("::")[-1] == "pickle" and len(n[2]) == 2 and all(a[0] == "lambda" for a in n[2])):
+            get, st = pc[2]
+            rets = find_all(get[2], lambda n: n[0] == "call" and n[1][0] == "fn" and str(n[1][1]).split("::")[-1] == "make_tuple")
+            ctors = find_all(st[2], lambda n: n[0] in ("ctor", "make") and len(n) > 2 and isinstance(n[2], tuple) and len(n[2]) >= 2 and n[1] not in ("string", "py::tuple"))
+            if not rets or not ctors:
+                continue
+            npick += 1
+            elems = rets[0][2]
+            sname = st[1][0] if st[1] else "state"
+            accessor = []
+            for e in elems:
+                ms = find_all((e,), lambda n: n[0] == "mcall" and isinstance(n[3], tuple) and (n[3] == ("var", get[1][0] if get[1] else "self") or (n[3][0] == "deref" and n[3][1] == ("var", get[1][0] if get[1] else "self")) or (n[3][0] == "mcall" and n[3][1] == "get")))
+                accessor.append(ms[-1][1] if ms else None)
+            # locals of setstate bound to state[i]
+            loc = {}
+            for d in find_all(st[2], lambda n: n[0] == "decl" and n[3] is not None):
+                ix = find_all((d[3],), lambda n: n[0] == "idx" and n[1] == ("var", sname) and n[2][0] == "const")
+                if ix:
+                    loc[d[1]] = ix[0][2][1]
+            ctor = max(ctors, key=lambda c: len(c[2]))
+            cname = str(ctor[1]).split("::")[-1].split("<")[0]
+            cands = [m for m in (classes.get(cname) or {}).get("methods", ()) if m[0] == cname and len(m[4]) == len(ctor[2])]
+            pnames = cands[0][4] if cands else None
+            used = set()
+            where = "%s:%d" % (f["file"], pc[-1] if isinstance(pc[-1], int) else f["line"])
+            for j, a in enumerate(ctor[2]):
+                ix = [n[2][1] for n in find_all((a,), lambda n: n[0] == "idx" and n[1] == ("var", sname) and n[2][0] == "const")]
+                ix += [loc[v[1]] for v in find_all((a,), lambda n: n[0] == "var" and n[1] in loc)]
+                used.update(ix)
+                if not ix or pnames is None or len(set(ix)) > 1:
+                    continue      # a parameter computed from several elements (format_to_dtype(format, itemsize)) has no single source
+                i = ix[0]
+                acc = accessor[i] if i < len(accessor) else None
+                if acc is None:
+                    continue
+                p = pnames[j]
+                ok = _norm(acc) == _norm(p) or _norm(acc) in _norm(p) or _norm(p) in _norm(acc) or (_norm(acc), _norm(p)) in (("recordlookup", "keys"), ("istuple", "recordlookup"), ("types", "contents"), ("type", "content"), ("typestr", "typestr"))
+                r.check(ok, "%s:%s#state[%d]->%s" % (f["qual"], cname, i, p), where, "%s: getstate stores %s() at position %d, but setstate passes state[%d] as the constructor parameter `%s` of %s" % (f["qual"], acc, i, i, p, cname), detail="%s() -> %s" % (acc, p))
+            for d in find_all(st[2], lambda n: n[0] == "idx" and n[1] == ("var", sname) and n[2][0] == "const"):
+                used.add(d[2][1])
+            missing = [i for i in range(len(elems)) if i not in used]
+            r.check(not missing, "%s:%s#state-consumed" % (f["qual"], cname), where, "%s: setstate of %s never reads state%s, which getstate stores (%s)" % (f["qual"], cname, missing, [accessor[i] for i in missing]), detail="all %d elements consumed" % len(elems))
+    if npick < 15:
+        raise AnalysisError("only %d py::pickle pairs recognised in src/python (anchor moved?)" % npick)
+    return r.done()
+
+
+_NARROW_TABLE = {
+    "NumpyArray_from_cuda_array_interface": "stoi of the one- or two-digit item size in a typestr such as '<i8'",
+    "Index_from_cuda_array_interface": "stoi of the one- or two-digit item size in a typestr such as '<i8'",
+    "make_NumpyArray": "ndim of an array for DLPack's 32-bit field (an array with 2^31 dimensions cannot exist)",
+}
+
+
+def rule_binding_narrowing(rep, fb, floor=3, name="WIDTH.implicit-narrowing:binding"):
+    r = rep.rule(name, "no value that arrives from Python is implicitly narrowed in the binding layer (an int64_t parameter passed on as int8_t, a ssize_t as int): pybind11 range-checks a parameter only against the type the lambda declares, "
+                 "so a silent narrowing afterwards wraps instead of raising; tabled: conversions of values that are small by construction", floor=floor)
+    n = 0
+    for f in fb.binding_funcs():
+        for w in find_all(f["body"], lambda k: k[0] == "narrow"):
+            n += 1
+            key = "%s#narrow%d" % (f["qual"], n)
+            if f["name"] in _NARROW_TABLE:
+                r.excepted(key, _NARROW_TABLE[f["name"]])
+                r.ok(key)
+                continue
+            r.fail(key, "%s:%d" % (f["file"], f["line"]), "%s narrows `%s` implicitly (%s bits) to %s" % (f["qual"], str(cs_root(w[3]))[:30], w[1], w[2]))
+    r.count("binding_functions", len(fb.binding_funcs()))
+    r.ok("scan", "%d binding functions scanned" % len(fb.binding_funcs()))
+    return r.done()
+
+
+def cs_root(e):
+    from . import callsites as cs
+    return cs.root_ident(e) or e
+
+
+_NP_TOWER = {
+    "generic": {"number", "integer", "signedinteger", "unsignedinteger", "inexact", "floating", "complexfloating", "bool_", "datetime64", "timedelta64", "str_", "bytes_", "flexible", "character", "void", "object_"},
+    "number": {"integer", "signedinteger", "unsignedinteger", "inexact", "floating", "complexfloating", "timedelta64"},
+    "integer": {"signedinteger", "unsignedinteger", "timedelta64", "int8", "int16", "int32", "int64", "uint8", "uint16", "uint32", "uint64", "intc", "longlong"},
+    "signedinteger": {"timedelta64", "int8", "int16", "int32", "int64"},
+    "unsignedinteger": {"uint8", "uint16", "uint32", "uint64"},
+    "inexact": {"floating", "complexfloating", "float16", "float32", "float64", "complex64", "complex128"},
+    "floating": {"float16", "float32", "float64", "longdouble", "float128"},
+    "complexfloating": {"complex64", "complex128", "complex256", "clongdouble"},
+    "flexible": {"str_", "bytes_", "void", "character"},
+}
+
+
+def _if_chain(s):
+    out = []
+    while s is not None and s[0] == "if":
+        out.append(s)
+        els = s[3] if len(s) > 3 and isinstance(s[3], tuple) else ()
+        s = els[0] if len(els) == 1 and isinstance(els[0], tuple) and els[0] and els[0][0] == "if" else None
+    return out
+
+
+def rule_binding_isinstance_order(rep, fb, floor=10, name="DEAD.isinstance-shadow:binding"):
+    r = rep.rule(name, "in an if / else-if chain of the binding layer that dispatches on the NumPy scalar class of a Python object (py::isinstance(obj, numpy.attr(\"X\"))), no class tested in a later arm is a subclass of a class "
+                 "tested alone in an earlier arm (NumPy's scalar hierarchy: timedelta64 < signedinteger < integer < number < generic, float64 < floating, ...): the later arm would be dead and the value handled as the coarser kind", floor=floor)
+    n = 0
+    for f in lifted(fb):
+        heads = [s for s in find_all(f["body"], lambda k: k[0] == "if") if True]
+        seen = set()
+        for h in heads:
+            if id(h) in seen:
+                continue
+            chain = _if_chain(h)
+            for c in chain:
+                seen.add(id(c))
+            if len(chain) < 3:
+                continue
+            earlier = []
+            for c in chain:
+                names = []
+                for call in find_all((c[1],), lambda k: k[0] == "call" and k[1][0] == "fn" and str(k[1][1]).split("::")[-1] == "isinstance"):
+                    for a in find_all(tuple(call[2]), lambda k: k[0] == "mcall" and k[1] == "attr" and k[4] and k[4][0][0] == "const" and isinstance(k[4][0][1], str)):
+                        if find_all((a[3],), lambda k: k[0] == "const" and k[1] == "numpy"):
+                            names.append(a[4][0][1])
+                if not names:
+                    continue
+                n += 1
+                dead = [(x, e) for x in names for e in earlier if x == e or x in _NP_TOWER.get(e, ())]
+                r.check(not dead, "%s#arm%d:%s" % (f["qual"], n, ",".join(names)), "%s:%d" % (f["file"], c[-1] if isinstance(c[-1], int) else f["line"]),
+                        "%s tests numpy.%s after an earlier arm already took numpy.%s, its base class: the arm is dead and such values are handled as %s" % (f["qual"], dead[0][0] if dead else "", dead[0][1] if dead else "", dead[0][1] if dead else ""), detail="not shadowed")
+                only = len(find_all((c[1],), lambda k: k[0] == "bin" and k[1] in ("&&",))) == 0
+                if only and len(names) == 1:
+                    earlier.append(names[0])
+    return r.done()
+
+
+def rule_pointer_units(rep, fb, floor=3, name="UNIT.ptr-offset-bytes:binding"):
+    r = rep.rule(name, "when a binding turns a buffer pointer into an integer (reinterpret_cast<ssize_t/size_t/int64_t>(x.ptr().get())) and adds the view's offset to it, the offset is scaled to bytes in that sum "
+                 "(offset() * sizeof(T) / itemsize; byteoffset() is already in bytes): integer arithmetic on an address counts bytes, not elements", floor=floor)
+    n = 0
+    for f in lifted(fb):
+        if not f.get("is_lambda") and f["name"].startswith("make_"):
+            continue
+        for b in find_all(f["body"], lambda k: k[0] == "bin" and k[1] == "+"):
+            sides = [b[2], b[3]]
+            addr = [s for s in sides if s[0] == "cast" and s[1] == "reinterpret" and re.search(r"(ssize_t|size_t|int64_t|intptr_t|long)$", str(s[2])) and find_all((s,), lambda k: k[0] == "mcall" and k[1] == "ptr")]
+            if len(addr) != 1:
+                continue
+            other = sides[1] if sides[0] is addr[0] else sides[0]
+            offs = find_all((other,), lambda k: k[0] == "mcall" and k[1] == "offset")
+            if not offs:
+                continue
+            n += 1
+            scaled = other[0] == "bin" and other[1] == "*" and bool(find_all((other,), lambda k: k[0] == "sizeof" or (k[0] == "mcall" and k[1] == "itemsize")))
+            r.check(scaled, "%s#addr+offset%d" % (f["qual"], n), "%s:%d" % (f["file"], f["line"]), "%s adds offset() to an address held as an integer without scaling it by the item size: the exported buffer starts offset bytes, not offset items, into the allocation" % f["qual"], detail="offset * sizeof")
+    return r.done()
+
+
+def rule_buffer_info_pair(rep, fb, floor=3, name="PAIR.buffer-info"):
+    r = rep.rule(name, "in a binding function that holds several py::buffer_info objects (the caller's array and a converted copy of it), strides are read from the buffer_info whose ptr is used: "
+                 "the copy made by numpy.asarray(..., int64) is contiguous in its own way, the original's strides and itemsize do not describe it", floor=floor)
+    for f in lifted(fb):
+        if f.get("is_lambda"):
+            continue
+        ptr_of, strides_of = set(), {}
+        for mem in find_all(f["body"], lambda k: k[0] == "member" and k[2] in ("ptr", "strides") and isinstance(k[1], tuple) and k[1][0] == "var"):
+            if mem[2] == "ptr":
+                ptr_of.add(mem[1][1])
+            else:
+                strides_of.setdefault(mem[1][1], mem)
+        if not strides_of:
+            continue
+        for v in sorted(strides_of):
+            r.check(v in ptr_of, "%s:%s.strides" % (f["qual"], v), "%s:%d" % (f["file"], f["line"]), "%s reads %s.strides but never %s.ptr, while the buffer it wraps comes from %s.ptr: shape/strides and data belong to different arrays" % (f["qual"], v, v, sorted(ptr_of)), detail="strides and ptr of one buffer_info")
+    return r.done()
+
+
+def rule_def_arg_order(rep, fb, floor=10, name="TABLE.binding-arg-order"):
+    r = rep.rule(name, "where a binding registers a C++ member function by pointer (`.def(\"name\", &T::name, py::arg(\"a\") = ..., py::arg(\"b\") = ...)`) the py::arg names are the C++ parameter names, in the C++ order: "
+                 "pybind11 assigns py::args to parameters by position, so two swapped names with compatible types cross the meaning of every keyword call and of the defaults", floor=floor)
+    classes = fb.classes()
+    n = 0
+    for f in fb.binding_funcs():
+        for d in find_all(f["body"], lambda k: k[0] == "mcall" and k[1] in ("def", "def_static") and len(k[4]) >= 3 and k[4][0][0] == "const" and k[4][1][0] == "addr"):
+            target = d[4][1][1]
+            tname = str(target[1] if target[0] in ("trait", "fn", "var") else target).split("::")
+            if len(tname) < 2:
+                continue
+            meth = tname[-1]
+            clsname = tname[-2].replace("ak::", "")
+            args = []
+            for a in d[4][2:]:
+                c = a[2] if a[0] == "assign" else a
+                c = c[1] if a[0] == "assign" else c
+                cc = a[1] if a[0] == "assign" else a
+                if cc[0] == "ctor" and str(cc[1]).endswith("arg") and cc[2] and cc[2][0][0] == "const":
+                    args.append(cc[2][0][1])
+            if len(args) < 2:
+                continue
+            # candidate C++ signatures: a method of that name with as many parameters, in the named class or (for template T) any class
+            cands = []
+            for cn, c in classes.items():
+                if clsname not in ("T",) and cn != clsname:
+                    continue
+                for mth in c.get("methods", ()):
+                    if mth[0] == meth and len(mth[4]) == len(args):
+                        cands.append((cn, mth[4]))
+            if not cands:
+                continue
+            n += 1
+            ok = any(tuple(_norm(p) for p in ps) == tuple(_norm(a) for a in args) for _, ps in cands)
+            perm = any(sorted(_norm(p) for p in ps) == sorted(_norm(a) for a in args) for _, ps in cands)
+            key = "%s:%s::%s#%d" % (f["qual"], clsname, meth, n)
+            if not ok and not perm:
+                r.ok(key, "python names differ from the C++ names (no permutation)")
+                continue
+            r.check(ok, key, "%s:%d" % (f["file"], d[-1] if isinstance(d[-1], int) else f["line"]), "%s registers %s::%s with py::args %s, but the C++ parameters are %s in that order" % (f["qual"], clsname, meth, args, list(cands[0][1])), detail="py::arg order = parameter order")
+    return r.done()
